@@ -34,7 +34,7 @@ for f in os.listdir(os.path.join(V, "harness", "props")):
     pass
 
 
-HOLD = {"C03", "C12"}     # being finished / triaged: not claimed until the lead has verified them on /repo
+HOLD = set()
 
 
 def main():
